@@ -45,6 +45,9 @@ def materialisations(sp, order):
 def run(ch, tier, digest=None):
     res = Result()
     cfg = swarm(ch.s('cfg'), Cfg(sends=True, notify=True, delays=True, bump=True, pair_bias=2), tier)
+    if ch.s('cfg').flag(1, 3):      # history gadgets: restoring a remembered sub-configuration iterates over stored collections
+        cfg.history = cfg.force_history = True
+        cfg.max_states = max(cfg.max_states, 8)
     sp = gen_spec(ch.s('chart'), cfg)
     mats = materialisations(sp, ch.s('order'))
     a = Sim(sp, statechart=mats[0][1])
@@ -117,7 +120,7 @@ def spawn(hs, tier, batch_seed, n):
 def post_batch(tier, batch_seed, agg):
     """engine hook: returns (stats dict, violation-or-None)"""
     from concurrent.futures import ThreadPoolExecutor
-    n = 150 if tier == 'quick' else 1500
+    n = 400 if tier == 'quick' else 3000
     seeds = [0, 1, 2, 3, 4242]
     with ThreadPoolExecutor(len(seeds)) as ex:
         rows = list(ex.map(lambda hs: spawn(hs, tier, batch_seed, n), seeds))
